@@ -311,6 +311,7 @@ func (ex *Exec) enterLoop(fr *Frame, lp *loopRec, reach string, st *State) (stri
 	// ---- discovery pass 2: are the written references loop-invariant?
 	fullHavoc := map[string]bool{}
 	freshOnly := map[string]bool{} // variant writes go to objects allocated inside the loop only
+	sinceFnEntry := map[string]bool{} // ... or, for these components, to objects allocated since the function was entered
 	pointRefs := map[string][]string{}
 	if len(compsWritten) > 0 {
 		d2 := ex.cloneForTrial()
@@ -319,8 +320,29 @@ func (ex *Exec) enterLoop(fr *Frame, lp *loopRec, reach string, st *State) (stri
 		s2 := st.clone()
 		d2.havocCells(f2, s2, cells)
 		for _, c := range sortedKeys(compsWritten) {
+			old := d2.comp(s2, c, d2.compSort[c])
 			s2.heap[c] = d2.sc.fresh("hv", d2.compSort[c])
+			if c == compAlloc {
+				// objects are never deallocated
+				d2.sc.assert(fmt.Sprintf("(forall ((r Int)) (! (=> (select %s r) (select %s r)) :pattern ((select %s r))))", old, s2.heap[c], s2.heap[c]))
+				if fr.entryAlloc != "" && fr.entryAlloc != old {
+					d2.sc.assert(fmt.Sprintf("(forall ((r Int)) (! (=> (select %s r) (select %s r)) :pattern ((select %s r))))", fr.entryAlloc, s2.heap[c], s2.heap[c]))
+				}
+			}
 		}
+		// the annotated invariants hold at the head of every iteration (they are
+		// proved on entry and preserved, by induction together with the frame derived
+		// here): they may be used to show that a written object is one allocated
+		// during the loop
+		if sp := ex.eng.specs.loopSpec(shortFn(fr.fn), lp.ordinal); sp != nil {
+			for _, cl := range sp.Invariants {
+				func() {
+					defer func() { recover() }() // a clause that cannot be evaluated here is simply not used
+					d2.sc.assert(mkImp(reach, d2.evalLoopClause(f2, s2, cl, lp)))
+				}()
+			}
+		}
+		allocAtEntry := ex.comp(st, compAlloc, sArr(sInt, sBool))
 		d2.runLoopBody(f2, lp, reach, s2)
 		memo := map[string]bool{}
 		for _, w := range d2.wlog.recs {
@@ -333,6 +355,20 @@ func (ex *Exec) enterLoop(fr *Frame, lp *loopRec, reach string, st *State) (stri
 				if !fullHavoc[w.comp] {
 					fullHavoc[w.comp] = true
 					freshOnly[w.comp] = true
+				}
+				if !d2.isFreshRefTerm(w.ref, n0, 0) && freshOnly[w.comp] && d2.quickProve(mkImp(reach, mkNot(mkSelect(allocAtEntry, w.ref)))) {
+					// not syntactically, but provably (with the invariants) an object
+					// that did not exist when the loop was entered
+					continue
+				}
+				if os.Getenv("GOVC_DEBUG") != "" {
+					fmt.Fprintf(os.Stderr, "  semantic freshness of %s at %s: entryAlloc=%q\n", w.comp, w.ref, fr.entryAlloc)
+				}
+				if !d2.isFreshRefTerm(w.ref, n0, 0) && freshOnly[w.comp] && fr.entryAlloc != "" && d2.quickProve(mkImp(reach, mkNot(mkSelect(fr.entryAlloc, w.ref)))) {
+					// ... or at least one that did not exist when the function was entered:
+					// the weaker frame "objects that existed at function entry keep their contents"
+					sinceFnEntry[w.comp] = true
+					continue
 				}
 				if !d2.isFreshRefTerm(w.ref, n0, 0) {
 					if os.Getenv("GOVC_DEBUG") != "" && ex.record && freshOnly[w.comp] {
@@ -416,6 +452,9 @@ func (ex *Exec) enterLoop(fr *Frame, lp *loopRec, reach string, st *State) (stri
 				// objects that existed before the loop keep their contents, except
 				// at the loop-invariant references that are written explicitly
 				a0 := ex.comp(st, compAlloc, sArr(sInt, sBool))
+				if sinceFnEntry[c] {
+					a0 = fr.entryAlloc
+				}
 				excl := []string{mkSelect(a0, "r")}
 				for _, r := range pointRefs[c] {
 					excl = append(excl, mkNot(mkEq("r", r)))
